@@ -229,6 +229,9 @@ func neighbours() []nb {
 		{"oid-sctlist.1", ext(append(append([]int{}, pki.OIDSCTList...), 1), false, der.OctetString([]byte{0, 0}))},
 		{"oid-2.4", ext(pki.OIDPoison[:len(pki.OIDPoison)-1], false, der.Null())},                         // proper prefix of both target OIDs
 		{"oid-2.4.5", ext([]int{1, 3, 6, 1, 4, 1, 11129, 2, 4, 5}, false, der.OctetString([]byte{0, 0}))}, // sibling arc (OCSP SCT list)
+		// the two CT OIDs with another first arc (2.3.6.1.4.1.11129.2.4.3, 0.3.6.1.4.1.11129.2.4.2): OIDs are compared in every arc
+		{"oid-poison-first-arc-2", ext(append([]int{2}, pki.OIDPoison[1:]...), false, der.Null())},
+		{"oid-sctlist-first-arc-0", ext(append([]int{0}, pki.OIDSCTList[1:]...), false, der.OctetString([]byte{0, 0}))},
 
 	}
 }
